@@ -49,7 +49,7 @@ fn oname(o: Outcome) -> String {
 }
 
 fn bounds(t: Tier) -> usize {
-    t.pick(4, 6)
+    t.pick(4, 7)
 }
 
 fn spec(t: Tier) -> Spec {
